@@ -60,9 +60,6 @@ def guards_of(func, blocks, b, skip_loops=True):
         if c is None:
             continue
         s0, s1 = blk['succ']
-        j = ipdom(func, d)
-        if j is not None and (j == b or j in doms):
-            continue        # b lies after the join of this branch: not guarded by it
         if term.get('c') in ('ForStmt', 'WhileStmt', 'DoStmt', 'CXXForRangeStmt') and skip_loops:
             # code after a loop is not "guarded" by the loop's exit condition
             if not _reaches(func, b, d):
@@ -71,6 +68,9 @@ def guards_of(func, blocks, b, skip_loops=True):
         in1 = (s1 == b) or (s1 in doms)
         if in0 == in1:
             continue
+        other = s1 if in0 else s0
+        if other == b or _reaches_avoiding(func, other, b, d):
+            continue        # b is (after) the join of this branch: reachable from the other side too
         ce, pol = strip_not(c)
         side = (in0 == pol)
         out.append(('%s%s' % ('' if side else '!', show(ce, 300))))
@@ -83,6 +83,24 @@ def _reaches(func, a, b):
     while st:
         x = st.pop()
         for s2 in func.blocks[x]['succ']:
+            if s2 == b:
+                return True
+            if s2 not in seen and s2 in func.blocks:
+                seen.add(s2)
+                st.append(s2)
+    return False
+
+
+def _reaches_avoiding(func, a, b, avoid):
+    if a == avoid:
+        return False
+    seen = {a}
+    st = [a]
+    while st:
+        x = st.pop()
+        for s2 in func.blocks[x]['succ']:
+            if s2 == avoid:
+                continue
             if s2 == b:
                 return True
             if s2 not in seen and s2 in func.blocks:
